@@ -44,6 +44,9 @@ FILES = {
     # the same file compiled with two -I lists that resolve its quoted include differently
     "cfgA/config.h": "#define FAST 1\nint cfg_a;\n", "cfgB/config.h": "int cfg_b;\n",
     "kern.c": '#include "config.h"\n#ifdef FAST\nint fast;\n#else\nint slow;\n#endif\n',
+    # the same file, the same -D and -I, two different forced includes
+    "pre1.h": "#define PRE 1\nint pre1;\n", "pre2.h": "#define PRE 2\nint pre2;\n",
+    "fi.c": "#if PRE == 1\nint one;\n#elif PRE == 2\nint two;\n#endif\nint fi;\n",
 }
 COMMANDS = [
     ("a.c", "/usr/bin/gcc", []),
@@ -60,6 +63,8 @@ COMMANDS = [
     ("g2.c", "/usr/bin/gcc", ["-DBASE=1"]),
     ("kern.c", "/usr/bin/gcc", ["-I", "cfgA"]),
     ("kern.c", "/usr/bin/gcc", ["-I", "cfgB"]),
+    ("fi.c", "/usr/bin/gcc", ["-include", "pre1.h"]),
+    ("fi.c", "/usr/bin/gcc", ["-include", "pre2.h"]),
 ]
 
 _entries = {}
